@@ -176,4 +176,44 @@ theorem hash_real_contains_gen (d : ℕ) (hd : d ≤ 32) (lon lat : ℝ) (hlon :
   rw [e1, e2]
   exact ⟨hi1, hi2, hj1, hj2⟩
 
+theorem lon_bound (lon : ℝ) (h : |lon| < 64 * π) : |lon| * (4 / π) < 256 := by
+  have hpi := Real.pi_pos
+  rw [← sub_pos]
+  have : 256 - |lon| * (4 / π) = (64 * π - |lon|) * (4 / π) := by field_simp; ring
+  rw [this]; exact mul_pos (by linarith) (by positivity)
+
+/-- **C01, `hash_real_contains`**: containment with respect to the model of the crate's own projection, for every depth
+    `d ≤ 32` (the crate uses `d ≤ 29`; over ℝ the `u32` saturation is harmless up to `d = 32`), every latitude in
+    `[−π/2, π/2]` and every longitude with `|lon| < 64π` (beyond, the `as u8` cast of `|lon|·4/π` saturates).
+    The parts are those of `hash_v2` (`hashV2_real_eq`). -/
+theorem hash_real_contains (d : ℕ) (hd : d ≤ 32) (lon lat : ℝ) (hlon : |lon| < 64 * π)
+    (hl1 : -(π / 2) ≤ lat) (hl2 : lat ≤ π / 2) :
+    ∃ X Y : ℝ, proj (α := ℝ) lon lat = some (X, Y) ∧
+      (d0hLhInD0c (α := ℝ) lon lat).1 < 12 ∧
+      gridCoord d ((d0hLhInD0c (α := ℝ) lon lat).2.2 + (d0hLhInD0c (α := ℝ) lon lat).2.1) < 2 ^ d ∧
+      gridCoord d ((d0hLhInD0c (α := ℝ) lon lat).2.2 - (d0hLhInD0c (α := ℝ) lon lat).2.1) < 2 ^ d ∧
+      ∃ m : ℤ, InDiamond d (d0hLhInD0c (α := ℝ) lon lat).1
+        (gridCoord d ((d0hLhInD0c (α := ℝ) lon lat).2.2 + (d0hLhInD0c (α := ℝ) lon lat).2.1))
+        (gridCoord d ((d0hLhInD0c (α := ℝ) lon lat).2.2 - (d0hLhInD0c (α := ℝ) lon lat).2.1))
+        (X + 8 * (m : ℝ)) Y :=
+  hash_real_contains_gen d hd lon lat (lon_bound lon hlon) hl1 hl2
+
+/-- the clamp: `v = 2` (north-east border of a base cell, e.g. the pole) gives `nside − 1` -/
+theorem gridCoord_two (d : ℕ) (hd : d ≤ 32) : gridCoord d 2 = 2 ^ d - 1 := by
+  obtain ⟨h1, _, h3⟩ := gridCoord_spec d hd 2 (by norm_num) (by norm_num)
+  have : ((2 ^ d : ℕ) : ℝ) ≤ ((gridCoord d 2 + 1 : ℕ) : ℝ) := by push_cast; linarith
+  have : 2 ^ d ≤ gridCoord d 2 + 1 := by exact_mod_cast this
+  omega
+
+/-- depth 0: both coordinates are 0 -/
+theorem gridCoord_depth0 (v : ℝ) (h0 : 0 ≤ v) (h2 : v ≤ 2) : gridCoord 0 v = 0 := by
+  have := (gridCoord_spec 0 (by norm_num) v h0 h2).1
+  omega
+
+/-- the hypotheses are satisfiable (negative longitude, north cap, deepest depth of the crate) -/
+example : (29 : ℕ) ≤ 32 ∧ |(-1 : ℝ)| < 64 * π ∧ -(π / 2) ≤ (1 : ℝ) ∧ (1 : ℝ) ≤ π / 2 := by
+  have := Real.two_le_pi
+  refine ⟨by norm_num, ?_, by linarith, by linarith⟩
+  rw [abs_neg, abs_one]; linarith
+
 end Hpx.HashReal
